@@ -21,7 +21,8 @@ REQUIRED_CLASSES = ["writer-ok", "reader-accepts-valid",
                     "links-ok"]
 RULE = ("(writers) meshes with V in {0,1,3,4,8} vertices x M in {0,1,2,4,12} "
         "triangles (indices at the bounds, coordinates from {0,+-1.5,1e6,"
-        "0.1}) x attribute sets (k in 1,3,4): precomputed bytes == "
+        "0.1}) x attribute sets (k in 1,3,4) x memory layouts {C, Fortran, strided, "
+        "transposed}: precomputed bytes == "
         "struct layout, read back equal, VTK output parsed by a subset "
         "parser; (reader) every truncation, every byte position x all 256 "
         "values, count and index field "
@@ -58,12 +59,24 @@ def make_mesh(V, M):
 
 
 # ---------------------------------------------------------------- writers
-def _eval_writer(col, V, M, attrs_k):
+def _eval_writer(col, V, M, attrs_k, layout="C"):
     from neuroglancer_scripts import mesh
-    case = {"kind": "writer", "V": V, "M": M, "attrs": attrs_k}
+    case = {"kind": "writer", "V": V, "M": M, "attrs": attrs_k,
+            "layout": layout}
     verts, tris = make_mesh(V, M)
     va = np.array(verts, dtype=np.float32).reshape(V, 3)
     ta = np.array(tris, dtype=np.uint32).reshape(len(tris), 3)
+    if layout == "F":
+        va, ta = np.asfortranarray(va), np.asfortranarray(ta)
+    elif layout == "strided":
+        bv = np.zeros((V, 6), dtype=np.float32)
+        bv[:, ::2] = va
+        bt = np.zeros((len(tris), 6), dtype=np.uint32)
+        bt[:, ::2] = ta
+        va, ta = bv[:, ::2], bt[:, ::2]
+    elif layout == "transposed":
+        va = np.ascontiguousarray(va.T).T
+        ta = np.ascontiguousarray(ta.T).T
     ok = True
     try:
         b = io.BytesIO()
@@ -544,7 +557,8 @@ def run_unit(u):
         for V in (0, 1, 3, 4, 8):
             for M in (0, 1, 2, 4, 12):
                 for attrs in ([], [1], [1, 3], [4, 1, 1]):
-                    _eval_writer(col, V, M, attrs)
+                    for layout in ("C", "F", "strided", "transposed"):
+                        _eval_writer(col, V, M, attrs, layout)
         col.sample({"kind": "writer", "V": 8, "M": 12, "attrs": [1, 3]})
     elif k == "reader":
         want = reader_bases()[u["base"]][2]
@@ -595,7 +609,8 @@ def replay(case):
     col = Collector()
     k = case["kind"]
     if k == "writer":
-        _eval_writer(col, case["V"], case["M"], case["attrs"])
+        _eval_writer(col, case["V"], case["M"], case["attrs"],
+                     case.get("layout", "C"))
     elif k == "reader":
         _eval_reader(col, bytes.fromhex(case["hex"]), case["origin"])
     elif k == "affine":
